@@ -720,6 +720,21 @@ def obs_diff(m, r):
 
 LOOSE_ERR = {'RecursionError'}
 
+
+def real_wf(snap):
+    """the hypothesis WF of the theorems evaluated on the real objects: `_save_pos_` and objects_to_save agree; the unique
+    and composite indexes hold exactly the current values of live objects (the latter is the invariant of property C11)"""
+    objs = snap['objs']
+    live = lambda i: 0 <= i < len(objs) and objs[i]['status'] not in DEL
+    for i, o in enumerate(objs):
+        p = o['save_pos']
+        if p is not None and not (p < len(snap['to_save']) and snap['to_save'][p] == i): return 'save_pos of object %d' % i
+        if o['status'] in ('inserted', 'updated') and p is not None: return 'saved object %d is queued' % i
+    for a, l in snap['idx'].items():
+        for v, i in l:
+            if live(i) and objs[i]['vals'].get(a) != v: return 'index %d entry %r' % (a, v)
+    return None
+
 def tie_phase(ctx, batch):
     if not ctx.driver.ok:
         ctx.note('driver unavailable: the correspondence part is skipped, the oracle still runs'); return
@@ -745,14 +760,66 @@ def tie_phase(ctx, batch):
             d = obs_diff(norm_model(m['obs']), norm_real(snap))
             if d is not None:
                 ctx.divergence('observation after the call differs: ' + d[0], hist, model=d[1], impl=d[2]); break
+            if not m.get('wf', True):
+                ctx.divergence('a reachable state does not satisfy the hypothesis WF of theorem C13 (model)', hist, model='wf = false'); break
+            rw = real_wf(snap)
+            if rw is not None:
+                ctx.divergence('a reachable state does not satisfy the hypothesis WF of theorem C13 (real objects)', hist, impl=rw); break
             ctx.count('tie:calls-compared')
             if err is not None:
                 ctx.count('tie:failing-call-undo-entries:%s' % min(m['trail'], 6))
             if ops[i]['k'] == 'flush': ctx.count('tie:flush-compared')
 
 
+# ---------------------------------------------------------------- regression inputs (defects found by this check, repaired in /repo)
+
+def _c(ent, rev, casc=None): return {'ent': ent, 'kind': 'coll', 'req': False, 'opt_casc': casc, 'rev': rev}
+def _r(ent, rev, req=False): return {'ent': ent, 'kind': 'ref', 'req': req, 'opt_casc': None, 'rev': rev}
+def _s(ent, unique=False): return {'ent': ent, 'kind': 'scalar', 'req': False, 'unique': unique}
+
+REGRESSIONS = [
+    # fix: the undo of Set.reverse_remove used the flag of the last object for all of them
+    ('reverse-remove-undo-in-added', 'ConstraintError',
+     {'nent': 3, 'autopk': [False, False, False], 'ckeys': [], 'attrs': [_c(0, 1), _c(1, 0), _c(1, 3, casc=False), _r(2, 2, req=True)]},
+     [{'k': 'create', 'e': 0, 'pk': 1, 'vals': []}, {'k': 'create', 'e': 0, 'pk': 2, 'vals': []}, {'k': 'create', 'e': 1, 'pk': 1, 'vals': []},
+      {'k': 'add', 'o': 2, 'a': 1, 'items': [0]}, {'k': 'flush'}, {'k': 'add', 'o': 2, 'a': 1, 'items': [1]},
+      {'k': 'create', 'e': 2, 'pk': 1, 'vals': [[3, {'ref': 2}]]}, {'k': 'delete', 'o': 2}]),
+    # fix: Entity._delete_ undo ran in the wrong order (object that is a member of its own collection, cascade from a parent whose delete is refused)
+    ('delete-undo-order', 'ConstraintError',
+     {'nent': 3, 'autopk': [False, False, False], 'ckeys': [],
+      'attrs': [_c(0, 2, casc=True), _c(0, 6, casc=False), _r(1, 0), _r(1, 4), _c(1, 3), _s(1), _r(2, 1, req=True)]},
+     [{'k': 'create', 'e': 0, 'pk': 1, 'vals': []}, {'k': 'create', 'e': 1, 'pk': 1, 'vals': [[2, {'ref': 0}]]},
+      {'k': 'create', 'e': 2, 'pk': 1, 'vals': [[6, {'ref': 0}]]}, {'k': 'flush'}, {'k': 'set', 'o': 1, 'a': 3, 'v': {'ref': 1}}, {'k': 'flush'},
+      {'k': 'delete', 'o': 0}]),
+    # fix: the undo of a failed attribute assignment raised KeyError when the old value was not loaded
+    ('set-undo-pop-not-loaded', 'CacheIndexError',
+     {'nent': 1, 'autopk': [False], 'ckeys': [[0, 1], [0, 2]], 'attrs': [_s(0), _s(0), _s(0)]},
+     [{'k': 'create', 'e': 0, 'pk': 1, 'vals': [[0, {'s': 1}], [1, {'s': 1}], [2, {'s': 1}]]},
+      {'k': 'create', 'e': 0, 'pk': 2, 'vals': [[1, {'s': 2}], [2, {'s': 1}]]}, {'k': 'flush'}, {'k': 'set', 'o': 1, 'a': 0, 'v': {'s': 1}}]),
+]
+
+
+def regressions(ctx):
+    batch = []
+    for name, experr, spec, ops in REGRESSIONS:
+        ops = [dict(op) for op in ops]
+        r = run_real(spec, ops, stop_on_change=False)
+        ctx.case({'regression': name}, nontrivial=True, kind='regression')
+        lasterr = r['steps'][-1][0] if len(r['steps']) == len(ops) else None
+        ctx.count('regression:%s:%s' % (name, lasterr))
+        if r['changed'] is not None:
+            i, cats, detail = r['changed']
+            report_change(ctx, spec, ops, i, vkey(ops[i], r['steps'][i][0], cats), detail)
+        elif lasterr != experr:
+            ctx.divergence('regression input no longer fails the way it did', {'schema': spec, 'ops': ops}, model=experr, impl=lasterr)
+        elif len(r['steps']) == len(ops):
+            batch.append((spec, r['w'], ops, r['steps']))
+    tie_phase(ctx, batch)
+
+
 def run(ctx):
     rng = ctx.rng
+    regressions(ctx)
     batch = oracle_phase(ctx, rng, ctx.scale(150, 3000), ctx.scale(22, 30))
     tie_phase(ctx, batch)
 
